@@ -1,0 +1,24 @@
+//go:build verif
+
+package packfile
+
+import (
+	"io"
+
+	"github.com/wrgl/wrgl/pkg/misc"
+)
+
+// VerifEncodeObjTypeAndLen exposes the packfile object header encoder to the
+// verification harness (only compiled with the "verif" build tag).
+func VerifEncodeObjTypeAndLen(objType int, u uint64) []byte {
+	b := encodeObjTypeAndLen(misc.NewBuffer(nil), objType, u)
+	c := make([]byte, len(b))
+	copy(c, b)
+	return c
+}
+
+// VerifDecodeObjTypeAndLen exposes the packfile object header decoder to the
+// verification harness (only compiled with the "verif" build tag).
+func VerifDecodeObjTypeAndLen(r io.Reader) (objType int, u uint64, err error) {
+	return decodeObjTypeAndLen(r)
+}
